@@ -20,7 +20,7 @@ from ..common import safe_repr, shard_items
 from ..runner import Acc, parallel
 from ..terms import E, Builder, show
 from ..universe import INT, NONE, S, STR, call, ln, universe
-from ..values import cp, dedup, perturb, value_universe
+from ..values import cp, dedup, inject, perturb, value_universe
 
 VLIMIT = {"quick": 400, "thorough": None}
 PYTYPE = {"none": type(None), "bool": bool, "int": int, "float": float, "str": str, "list": list,
@@ -99,6 +99,12 @@ def values_for(t, tier):
                 d[ks[0]] = b
                 d[ks[1]] = b
                 extra.append(d)
+    # not-a-number against whatever the schema says about floats: no error about it may state a
+    # comparison (nan is neither below a minimum nor above a maximum)
+    nan = float("nan")
+    extra.append(nan)
+    for w in M.witnesses(t)[:1]:
+        extra += inject(w, nan, max_out=10)
     return dedup(vals + extra), capped
 
 
